@@ -93,6 +93,7 @@ func c12(c *Ctx) {
 	r.Decides("the updater cached after a merge step carries the value the file now holds (so the exact pass still runs when merged != target)")
 	r.Decides("merge conditions treat old and new value alike (unlimited symbols map to the maximum on both sides)")
 	r.Decides("the BE cpuset rewrite writes the union top-down before the target bottom-up, and writeBECgroupsCPUSet iterates downward exactly when reversed")
+	r.Decides("LeveledUpdateBatch runs both passes and the cache updates in one critical section; cgroupFileWriteIfDifferent skips the write only when the file already holds the target (string equality, the max symbol, or an equal cpuset)")
 	r.Declines("validity of each intermediate file content (string / cpuset values) for arbitrary trees and values")
 
 	if fn := c.Fn(rexPkg, "ResourceUpdateExecutorImpl", "LeveledUpdateBatch"); fn != nil {
@@ -114,6 +115,7 @@ func c12(c *Ctx) {
 	}
 	c12conditions(c)
 	c12cpuset(c)
+	c12writeIfDifferent(c)
 }
 
 func invokes(fn *ssa.Function, method string) []ssa.CallInstruction {
@@ -163,6 +165,30 @@ func c12leveled(c *Ctx, fn *ssa.Function) {
 	if im != nil && iu != nil {
 		r.Check(im.Block().Dominates(iu.Block()) || blockBefore(im.Block(), iu.Block()), "LOOPDIR", key+"/merge-before-exact", c.InstrPos(merges[0]), "merge pass precedes the exact pass",
 			"the exact pass is not preceded by the merge pass")
+	}
+	r.Rule("ATOMIC: in LeveledUpdateBatch both passes run in one critical section: MergeUpdate(), update() and the ResourceCache stores are executed with LeveledUpdateLock held on every path (two batches on one subtree may not interleave between the merge pass of one and its exact pass)")
+	{
+		locks := an.NewAnyLocks()
+		var sites []ssa.Instruction
+		sites = append(sites, merges[0], updates[0])
+		for _, cl := range an.Calls(fn, false) {
+			if an.ShortCallee(cl.Common()) == "SetDefault" || an.ShortCallee(cl.Common()) == "Set" {
+				sites = append(sites, cl)
+			}
+		}
+		var bad []string
+		for _, s := range sites {
+			held := false
+			for k, w := range locks.HeldAt(s) {
+				if strings.HasSuffix(k, ".LeveledUpdateLock") && w {
+					held = true
+				}
+			}
+			if !held {
+				bad = append(bad, c.InstrPos(s))
+			}
+		}
+		r.Check(len(bad) == 0, "ATOMIC", key+"/one-critical-section", c.Pos(fn.Pos()), sprintf("%d write/cache sites run under LeveledUpdateLock", len(sites)), "these steps of the leveled update run without LeveledUpdateLock: "+strings.Join(bad, ", ")+" - another batch can run completely between this batch's merge pass and its exact pass, leaving a child above its parent")
 	}
 	r.Rule("PATH: MergeUpdate() and update() in LeveledUpdateBatch are dominated by needUpdate(updater)==true")
 	for _, cl := range []ssa.CallInstruction{merges[0], updates[0]} {
@@ -491,4 +517,71 @@ func c12cpuset(c *Ctx) {
 		}
 		r.Floor("LOOPDIR", "path iterations in writeBECgroupsCPUSet", n, 2)
 	}
+}
+
+// c12writeIfDifferent: a write is skipped only when the file already holds the target.
+func c12writeIfDifferent(c *Ctx) {
+	r := c.R
+	r.Rule("PATH(skip reasons): in cgroupFileWriteIfDifferent, from behind a successful read of the current content, assuming value != current, not (current is the max symbol / value the max value) and not IsEqualStrCpus(current, value), no return is reachable without cgroupFileWrite (there is no other reason to report 'unchanged')")
+	fn := c.Fn(rexPkg, "", "cgroupFileWriteIfDifferent")
+	if fn == nil {
+		return
+	}
+	key := fkey(fn)
+	var read *ssa.Call
+	for _, cl := range an.Calls(fn, false) {
+		if an.ShortCallee(cl.Common()) == "cgroupFileRead" {
+			read, _ = cl.(*ssa.Call)
+		}
+	}
+	var value *ssa.Parameter
+	for _, p := range fn.Params {
+		if p.Name() == "value" {
+			value = p
+		}
+	}
+	if read == nil || value == nil {
+		r.Unknown("PATH", key+"/skip-reasons", c.Pos(fn.Pos()), "read of the current content / value parameter not found")
+		return
+	}
+	cur, rerr := extract(read, 0), extract(read, 1)
+	f := an.Facts{}
+	if rerr != nil {
+		f[rerr] = an.Nil
+	}
+	for _, b := range fn.Blocks {
+		for _, in := range b.Instrs {
+			switch x := in.(type) {
+			case *ssa.BinOp:
+				if x.Op != token.EQL && x.Op != token.NEQ {
+					continue
+				}
+				isCur := func(v ssa.Value) bool { return v == cur }
+				isVal := func(v ssa.Value) bool { return v == ssa.Value(value) }
+				_, cy := constString(x.Y)
+				_, cx := constString(x.X)
+				eq := (isCur(x.X) && isVal(x.Y)) || (isVal(x.X) && isCur(x.Y)) || (isCur(x.X) && cy) || (isCur(x.Y) && cx)
+				if eq {
+					if x.Op == token.EQL {
+						f[x] = an.False
+					} else {
+						f[x] = an.True
+					}
+				}
+			case *ssa.Call:
+				if an.ShortCallee(&x.Call) == "IsEqualStrCpus" {
+					f[x] = an.False
+				}
+			}
+		}
+	}
+	reach := an.Explore(fn, an.After(read), f, func(in ssa.Instruction) bool {
+		cl, ok := in.(ssa.CallInstruction)
+		return ok && an.ShortCallee(cl.Common()) == "cgroupFileWrite"
+	})
+	var bad []string
+	for _, ret := range reach.Returns() {
+		bad = append(bad, c.InstrPos(ret))
+	}
+	r.Check(len(f) >= 3 && len(bad) == 0, "PATH", key+"/skip-reasons", c.InstrPos(read), "the write is skipped only for equal contents", sprintf("the write can be skipped although the file content differs from the target (return at %s; %d equalities recognised): the value is cached as written and the file keeps the stale content", strings.Join(bad, ","), len(f)))
 }
